@@ -268,6 +268,15 @@ def replay_free_energy(inputs):
         data[(0,) * 3] = 5 * 10 ** 9  # very wide dynamic range: visited voxels with probabilities far below 1e-8
     if inputs.get('scale'):
         data = data * float(inputs['scale'])  # averaged (non-integer) densities, possibly with a total below one
+    layout = inputs.get('layout')
+    if layout == 'fortran':
+        data = np.asfortranarray(data)  # column-major storage, as grids read from volumetric files are
+    elif layout == 'transposed':
+        data = np.ascontiguousarray(data.transpose(2, 1, 0)).transpose(2, 1, 0)  # a transposed view: same values, reversed strides
+    elif layout == 'strided':
+        big = np.zeros(tuple(2 * x for x in data.shape), dtype=data.dtype)
+        big[::2, ::2, ::2] = data
+        data = big[::2, ::2, ::2]  # every second voxel of a larger array: non-contiguous view
     vol = Volume(data=data, lattice=Lattice.cubic(4.0))
     bad = []
     p = vol.probability()
@@ -315,13 +324,15 @@ def replay_free_energy(inputs):
 def bounded_free_energy(tier, seed):
     import numpy as np
     n = 60 if tier == 'quick' else 1500
-    st = Stand('C09.free_energy.random', f'{n} random non-negative grids (<= 4x4x4, ~30% zeros; integer counts and scaled float densities incl. totals below 1) x T in {{1, 300, 1000, 20000}}',
+    st = Stand('C09.free_energy.random', f'{n} random non-negative grids (<= 4x4x4, ~30% zeros; integer counts and scaled float densities incl. totals below 1) x T in {{1, 300, 1000, 20000}}; every third grid stored column-major, as a transposed view or as a strided view',
                'seeded random; non-trivial = grid with both zero and non-zero voxels; distinct by (seed, shape, T)')
     rng = np.random.default_rng(seed + 909)
     for c in range(n):
         shape = [int(x) for x in rng.integers(1, 5, size=3)]
         inp = {'seed': int(rng.integers(1, 10 ** 6)), 'shape': shape, 'temperature': float([1.0, 300.0, 1000.0, 20000.0][c % 4]),
                'scale': [None, 0.01, 0.5, 3.7][(c // 4) % 4]}
+        if c % 3 == 2:
+            inp['layout'] = ['fortran', 'transposed', 'strided'][(c // 3) % 3]  # the values are what counts, not how the array is stored
         if c % 7 == 5:
             inp['dynamic'] = True
             inp['scale'] = None
